@@ -14,13 +14,13 @@ NOTES = {
     'C01': 'parts: PBF (Model/Pbf, PbfMsg, StringTable, Delta; byte-exact writer correspondence, cross reads, block-accounting stream, independent framing walker) and text (Model/OplFmt, XmlFmt over an explicit ExpatContract; byte-exact writers, cross reads, real-write→real-read monitor over options × compressions). Proved at full strength: delta/string-table/packed round trips; PBF Info, node, way, relation and dense-node round trips at field and byte level; pbf_block_roundtrip and pbf_file_roundtrip (decodeFile (encodeFile opts h objs) = (projectHeader, objs.map project) whenever the writer succeeds); header round trip with boxes; size estimate sound and block limits (≤ 8000 entities, blob ≤ 32 MiB or the writer raises — the proof exposed the 5-byte blob-size gap fixed in 77d5451); opl_roundtrip and opl_file_roundtrip; xml_roundtrip for nodes/ways/relations and changesets with discussions; xml_file_roundtrip over several buffers, header and change-file theorems (under ExpatContract). Known finding: xml-u32-max:changeset.',
     'C02': 'spec encoders with explicit choice vectors for PBF (field order, dense/plain, granularity, offsets, date granularity, unknown fields, indexdata, table layout, block splitting), o5m (inline vs back-reference per pair, table wrap-around, resets, unknown/sync/jump datasets, o5c) and OPL/XML renderers (attribute order, separators, escape styles, quoting, entity vs char-ref, line endings); files read by the real Reader and by the model decoders. Proved at full strength: pbf_decode_spec, o5m_table_ring + o5m_decode_spec, opl_decode_spec, xml_decode_spec (reader half for any XML-1.0-conformant event source + lexical half for the model tokenizer), field-order/unknown-field/any-rank lemmas, any BlobHeader size ≤ 64 KiB.',
     'C03': 'parts so far: o5m (cursor-program model with explicit `oob`, o5m_reads_in_bounds, hostile tier under ASan+UBSan in both build modes); PBF/text/layout parts in progress.',
-    'C04': 'Model/Layout + Model/Buf (epochs model reallocation; raw pointers kept across calls become (epoch, offset)); capacity_independent for all scripts/capacities/modes yes|internal; purge_spec; stale-pointer theorem for the repaired ChangesetDiscussionBuilder. Open: alignment half of buf_inv, tree-level built_content (monitored, not proved).',
+    'C04': "Model/Layout + Model/Buf (epochs model reallocation; raw pointers kept across calls become (epoch, offset); builder calls are micro programs whose only throwing step is reserve_space); 33 theorems, none _partial: capacity_independent for all scripts/capacities/modes yes|internal; buf_inv_bounds and buf_inv_aligned in EVERY reachable state (inductive invariant open_builders_sizes_congruent), destructors_never_throw, misaligned_only_inside_unaligned_list; purge_spec; stale-pointer theorems for the repaired ChangesetDiscussionBuilder (model follows 5690f83: pending comment finished in the destructor); built_bytes / built_bytes_sequence: the script of builder calls for an object commits exactly HostileLayout.build (bridge to C03's one-shot layout model), built_content: under the builders' Guards the committed bytes are Layout.WF and decode to what was passed in; set_field laws. Mode `no` for built_content and tree-level push_back/add_buffer content are monitored, not proved.",
     'C05': 'Model/Pipeline (read thread, parser thread with ParserWithBuffer nesting / PBF blob futures fulfilled by arbitrary workers, consumer with status machine and m_back_buffers; both queues are QueueSM machines of C19); queue_of_futures_order invariant, exactly_once_in_order at full strength for every well-formed configuration, schedule/pool-size independence, nested unwinding order, mask = filtered subsequence, read_after_eof_fails; tie = trace validation of real runs (scheduling validator finds an interleaving of the model consistent with the hook trace) + object-sequence monitor against the single-threaded decode over pool sizes, queue sizes, masks, buffers_type, four formats. Hypothesis blobFault = none on the equation theorems.',
     'C06': 'Model/Wire + Chunks + PbfFraming; theorems for all chunkings (OPL lines, PBF framing, o5m window + dataset loop, XML feed); harness drives the real line_by_line, PBFParser framing functions and O5mParser::ensure_bytes_available (-fno-access-control) and monitors the whole Reader behind a mock decompressor; o5m model = code after fix 4708c02.',
-    'C07': 'same Pipeline machine with faults (j-th decompressor read, close, parser before/after header, blob decode in a worker) and an arbitrary client; header_fulfilled_once, first_error_reported, fault_is_on_its_way, no_data_after_error, closed_reader_reads_nothing_more, bounded_progress (ranking function: every non-busy-wait internal step strictly decreases it); no_stuck_state (see manifest for what is still assumed); fairness of the OS scheduler assumed; fd/thread leaks observed by monitors (/proc/self/task, /proc/self/fd) under a 20 s watchdog for every stop point x fault point x queue/pool size.',
+    'C07': 'same Pipeline machine with faults (j-th decompressor read, close, parser before/after header, blob decode in a worker) and an arbitrary client; 25 theorems: header_fulfilled_once, first_error_reported, fault_is_on_its_way, no_data_after_error, closed_reader_reads_nothing_more, no_stuck_state at FULL strength (the six wait-for invariants are now proved for all reachable states), bounded_progress (ranking function), api_call_returns_or_spins, busy_wait_never_forced, api_call_returns_thread_fair (every API call returns under per-thread weak fairness of the scheduler - the only remaining assumption), destructor_joins_all; fd/thread leaks observed by monitors (/proc/self/task, /proc/self/fd) under a 20 s watchdog for every stop point x fault point x queue/pool size; the PBF-file path that reads the fd directly is covered by the monitors only.',
     'C08': 'Model/WriterSM: OS fault oracle, reliable_write, compressor wrappers over library contracts (GzSpec, BzSpec), writer/pool/write-thread small-step machine; harness interposes write/fsync/close (fopencookie bridge for stdio) and injects faults at every offset.',
     'C09': 'Model/Decomp with zlib/libbz2 as contract parameters; Fixes.all (= code after 20beb73, 0ac7ff4, d74b2ae) is the main line, Fixes.none kept with its refutation witnesses as regression documentation.',
-    'C10': 'partial by design: exact-integer geometry core, segment order, duplicate cancellation, sweep, pre-check, orientation, permutation invariance proved; ring building judged by the executable Valid/even-odd spec on generated arrangements (not proved).',
+    'C10': 'exact-integer geometry core (segment order, intersection decision, duplicate cancellation, sweep, orientation, permutation invariance) + ring building: m_locations (stable sort spec), find_split_locations (reported open ends = odd-degree nodes, m_split_locations = nodes of degree >= 4), the simple case (add_new_ring loop terminates, rings closed, >= 4 points, PARTITION the segments = even-odd fill, rings = connected components, independent of input order for any find_enclosing_ring), orientation of outer/inner rings, first ring outer, complex-case pieces (add_new_ring_complex + both cutting loops terminate; pieces are chains between split locations and partition the segments): 54 theorems. Not proved: which outer ring find_enclosing_ring picks (double arithmetic; 2 known findings), find_candidates/join_connected_rings search (1 known finding) - judged by the executable Valid/even-odd spec. Tie: `rb` stream prints locations list, split locations, simple-case rings with links and sums, complex pieces from the REAL BasicAssembler (-fno-access-control) and from the model, exact diff.',
     'C11': 'Model/RelMgr; global theorems for all configurations/relation sets/accepted histories: completed_exactly_once (+ at the last member), incomplete_listed, not_in_any_relation_reported, flush_threshold_irrelevant, members_available_in_callback, shared_member_kept_until_last, released_lookup_absent (code after 5127b06; pre-fix witness kept), stored_members_are_needed.',
     'C12': 'generic Laws structure + one refinement theorem instantiated per implementation; FlexMem for any threshold; mmap growth under the GrowOk contract (`_partial`).',
     'C13': 'coord_parse_exact / ts_roundtrip / ts_parse_valid_fields at full strength for the code after 5d92c23, b0f4fdb, b3b4a84, 2814835; old variants kept with refutations.',
